@@ -76,6 +76,13 @@ static void visit_sb(unsigned x, unsigned y) {
         if (y > 0 && x + 1 < PW) V_ASSERT(sb_done[y - 1][x + 1] || seg_of(x + 1, y - 1) == visit_seg, "upper-right neighbour finished before the segment starts");
     } else sb_done[y][x] = 1;
 }
+/* R (bounded run) marks superblocks by segment membership (concrete after initialisation, so these are
+ * constant-bound loops with one symbolic comparison each); that the real walk visits exactly the members
+ * of each segment is decided separately by the geometry queries (MODE 2). */
+static void mark_segment(unsigned s, int phase) {
+    visit_phase = phase; visit_seg = s;
+    for (unsigned y = 0; y < PH; y++) for (unsigned x = 0; x < PW; x++) if (seg_of(x, y) == s) visit_sb(x, y);
+}
 #include "c24_walk.inc"   /* static void walk_segment(EncDecSegments *segments_ptr, uint16_t segment_index, uint32_t tile_group_width_in_sb) */
 
 #if MODE == 1
@@ -108,7 +115,7 @@ void harness(void) {
             v_cur_thread = w;
             got = assign_enc_dec_segments(S, &cur[w], &wtask[w], NULL);
         } else {
-            visit_phase = 1; visit_seg = cur[w]; walk_segment(S, cur[w], PW);   /* segment finished */
+            mark_segment(cur[w], 1);   /* segment finished */
             seg_finished[cur[w]] = 1; busy[w] = 0;
             v_cur_thread = w;
             got = assign_enc_dec_segments(S, &cur[w], &wtask[w], NULL);
@@ -119,7 +126,7 @@ void harness(void) {
             V_ASSERT(!seg_started[cur[w]], "a segment is handed out once");
             V_ASSERT(S->valid_sb_count_array[cur[w]] > 0, "only non-empty segments are handed out");
             seg_started[cur[w]] = 1; busy[w] = 1;
-            visit_phase = 0; visit_seg = cur[w]; walk_segment(S, cur[w], PW);
+            mark_segment(cur[w], 0);
         }
     }
     int anybusy = 0; for (int w = 0; w < NWORK; w++) anybusy |= busy[w];
